@@ -290,6 +290,11 @@ func master() int {
 	sort.Strings(keys)
 	violations := 0
 	var lines []string
+	const maxKeys = 40
+	if len(keys) > maxKeys {
+		lines = append(lines, fmt.Sprintf("NOTE: %d distinct failing classes; the first %d (sorted by key) are re-executed and reported, the others are listed in the evidence only", len(keys), maxKeys))
+		keys = keys[:maxKeys]
+	}
 	os.MkdirAll(filepath.Join(outDir(), "replays", id), 0o755)
 	for _, k := range keys {
 		f := a.failures[k]
@@ -360,6 +365,7 @@ func master() int {
 		"workers":                       jobs,
 		"infrastructure_notes":          a.infra,
 		"known_findings_reported":       countPrefix(lines, "KNOWN-FINDING"),
+		"failing_classes":               len(a.failures),
 	}
 	if a.stats.Nodes == 0 {
 		cov["states"] = evals
